@@ -354,6 +354,45 @@ def check(ctx):
                f"return is unreachable then" if ok else
                f"[{cfgname}] an empty association is not turned into "
                f"SyncException before the return", key=f"C05.7:{cfgname}")
+        # ... and *only* then: any other SyncException must be a check of
+        # the argument types, not a verdict on the time stamps that
+        # pre-empts the tolerance search
+        for e in raises:
+            if e in zero:
+                continue
+            ats = [a for a in tm.atoms(e.live) if a.op != "iter"]
+            typeish = [a for a in ats if any(
+                is_call_to(x, "builtins.isinstance", "builtins.type",
+                           "builtins.hasattr") for x in a.walk())]
+            searched = [a for a in ats if any(
+                x is mt[0].data["result"] for x in a.walk())]
+            data = [a for a in ats if a not in typeish and
+                    a not in searched and any(
+                # stamp *values* (t[0], t[-1], min / max ...); an emptiness
+                # test (num_poses == 0, len(t) == 0) is a case of "nothing
+                # can match"
+                (x.op in ("sub", "elem") and x.args[0].op == "attr" and
+                 x.args[0].args[1] == "timestamps") or
+                (x.op == "call" and tm.callee_name(x) != "builtins.len" and
+                 any(y.op == "attr" and y.args[1] == "timestamps"
+                     for y in x.args[1]))
+                for x in a.walk())]
+            # which data tests does the raise really depend on?
+            dep = [a for a in data
+                   if tm.fold(e.live, lambda t, a=a: True if t is a else (
+                       True if t in typeish and False else None))
+                   is not tm.fold(e.live, lambda t, a=a: False if t is a
+                                  else None)]
+            if not data:
+                continue
+            ctx.ob("C05.7", e, not dep,
+                   f"[{cfgname}] the SyncException at {e.where} does not "
+                   f"depend on the time stamps" if not dep else
+                   f"[{cfgname}] SyncException at {e.where} is raised on a "
+                   f"test of the time stamps ({fmt(dep[0])[:100]}) instead "
+                   f"of the result of the tolerance search: inputs with a "
+                   f"pair within max_diff are refused",
+                   key=f"C05.7:{cfgname}:only-when-empty")
         # C05.9 no bypass
         for e in rets:
             ok = e.idx > max(x.idx for x in reds) and \
